@@ -47,6 +47,41 @@ def murmur3_32(data):
     return h
 
 
+def _rotl(x, r):
+    return ((x << r) | (x >> (32 - r))) & M32
+
+
+def twins(rng, n):
+    """n distinct 8-byte keys without NUL bytes whose 32-bit murmur values are IDENTICAL (constructed: the second block
+    is solved for so that the state after two blocks coincides; the block mix is a bijection on 32-bit words)."""
+    c1, c2 = 0xcc9e2d51, 0x1b873593
+    c1i, c2i = pow(c1, -1, 1 << 32), pow(c2, -1, 1 << 32)
+
+    def mix(k):
+        return (_rotl((k * c1) & M32, 15) * c2) & M32
+
+    def unmix(m):
+        return (_rotl((m * c2i) & M32, 17) * c1i) & M32
+
+    def h1(k):           # state after the first block
+        return (_rotl(mix(k), 13) * 5 + 0xe6546b64) & M32
+    while True:
+        a = bytes(rng.randrange(1, 256) for _ in range(8))
+        ka, kb = int.from_bytes(a[:4], 'little'), int.from_bytes(a[4:], 'little')
+        target = h1(ka) ^ mix(kb)           # value that is rotated/multiplied next
+        out = [a]
+        tries = 0
+        while len(out) < n and tries < 4000:
+            tries += 1
+            p = bytes(rng.randrange(1, 256) for _ in range(4))
+            q = unmix(target ^ h1(int.from_bytes(p, 'little'))).to_bytes(4, 'little')
+            k = p + q
+            if 0 not in q and k not in out:
+                out.append(k)
+        if len(out) == n and len(set(murmur3_32(k) for k in out)) == 1:
+            return out
+
+
 def cstr(b):
     i = b.find(b'\0')
     return b if i < 0 else b[:i]
@@ -203,9 +238,25 @@ def directed_removals(rng, col, r):
     return hs
 
 
+def directed_twins(rng, r):
+    """keys with the SAME 32-bit hash: lookups must compare names, removal must unlink only the named key"""
+    hs = []
+    for L in (2, 3, 4):
+        ks = twins(rng, L)
+        for pos in range(L):
+            ops = ['put %s %02x' % (hexs(k), i + 1) for i, k in enumerate(ks)]
+            ops += ['size'] + ['get ' + hexs(k) for k in ks] + ['walk %d' % (L + 1)]
+            ops += ['put %s ee' % hexs(ks[pos]), 'size'] + ['get ' + hexs(k) for k in ks]
+            ops += ['remove ' + hexs(ks[pos]), 'size'] + ['get ' + hexs(k) for k in ks] + ['walk %d' % (L + 1), 'remove ' + hexs(ks[pos])]
+            ops += ['putint %s %d' % (hexs(ks[pos]), -pos), 'getint ' + hexs(ks[pos])] + ['remove ' + hexs(k) for k in ks] + ['size', 'walk 1']
+            hs.append((['new %d' % r, 'dump 1'], ops))
+    return hs
+
+
 def exhaustive(col, rng, r, K, D):
     """every sequence of D put/remove operations over K keys of one slot, then a complete walk"""
-    ks = col.chain_keys(rng, r, K)
+    ks = col.chain_keys(rng, r, K) if K > 0 else twins(rng, -K)
+    K = abs(K)
     alpha = ['put %s %02x' % (hexs(k), i + 1) for i, k in enumerate(ks)] + ['remove ' + hexs(k) for k in ks]
     hs = []
     idx = [0] * D
@@ -478,6 +529,7 @@ def run(ctx, replay=None):
     hs = []
     for r in RANGES:
         hs += directed_removals(rng, col, r)
+        hs += directed_twins(rng, r)
     nb += run_histories(ctx, exe, hs, 'directed')
     # random histories: a chain of >= 5 colliding keys + keys elsewhere + special keys
     hists = []
@@ -488,6 +540,8 @@ def run(ctx, replay=None):
             keys = col.chain_keys(rng, r, nchain)
             if col.eff(r) > 1:
                 keys += col.other_keys(rng, r, rng.choice([0, 2, 5]), keys)
+            if i % 2 == 1:
+                keys += twins(rng, rng.choice([2, 3, 4]))
             if i % 3 == 0:
                 keys += rng.sample(SPECIAL_KEYS, rng.choice([3, 6, len(SPECIAL_KEYS)]))
             mix = MIXES[rng.choice(['map', 'map', 'churn', 'walk'])]
@@ -502,12 +556,12 @@ def run(ctx, replay=None):
     nb += run_histories(ctx, exe, big, 'large')
     # bounded-exhaustive: all put/remove sequences over K keys of one chain
     ex = []
-    plan = [(1, 3, 5), (2, 3, 4), (3, 3, 4), (1000, 3, 4)] if quick else [(1, 4, 5), (1, 3, 7), (2, 3, 6), (3, 4, 5), (7, 3, 6), (1000, 3, 6), (0, 3, 5)]
+    plan = [(1, 3, 5), (2, 3, 4), (3, -3, 4), (1000, 3, 4)] if quick else [(1, 4, 5), (1, 3, 7), (2, 3, 6), (3, 4, 5), (7, -3, 6), (1000, 3, 6), (0, -3, 5)]
     for r, K, D in plan:
         ex += exhaustive(col, rng, r, K, D)
     nb += run_histories(ctx, exe, ex, 'exhaustive')
     ctx.cov['exhaustive'] = False
-    ctx.cov['exhaustive_note'] = 'all sequences of D put/remove operations over K keys sharing one chain, (range,K,D) in %s, each followed by a complete walk; random and directed histories beyond' % (plan,)
+    ctx.cov['exhaustive_note'] = 'all sequences of D put/remove operations over K keys sharing one chain (K<0: |K| keys with identical 32-bit hash), (range,K,D) in %s, each followed by a complete walk; random and directed histories beyond' % (plan,)
     ctx.cov['correspondence_mismatches'] = nb
     ctx.cov['traces_validated_against_impl'] = len(hs) + len(hists) + len(big) + len(ex)
     ctx.cov['ranges'] = RANGES
